@@ -49,10 +49,22 @@ var lenSymRe = regexp.MustCompile(`\(declare-fun ([^ ]*\.(?:len|cap)![0-9]+) \(\
 
 // shrink looks for a counterexample with small slices: the same query with all
 // slice lengths bounded; the first bound that is still satisfiable is kept.
-func (m *modelOracle) shrink() {
+func (m *modelOracle) shrink(extra []Term) {
 	var syms []string
 	for _, d := range lenSymRe.FindAllStringSubmatch(m.query, -1) {
 		syms = append(syms, d[1])
+	}
+	for _, t := range extra {
+		// integer fields of the objects the parameters point to (positions, counts)
+		declared := true
+		for _, sym := range symRe.FindAllString(t.S, -1) {
+			if (strings.Contains(sym, "!") || strings.HasPrefix(sym, "mem$")) && !m.decl[sym] {
+				declared = false
+			}
+		}
+		if declared && t.Sort == SBV64 {
+			syms = append(syms, t.S)
+		}
 	}
 	if len(syms) == 0 {
 		return
@@ -344,8 +356,45 @@ func (g *materializer) value(t types.Type, leafVal func(path string, srt Sort) u
 		}
 		inner := g.value(et, func(p string, srt Sort) uint64 {
 			return g.entryRead(memName(et)+p, srt, rgn, off)
-		}, nil, "", depth+1)
+		}, func(p string) (uint64, bool) {
+			// region of an array embedded in the heap object at (rgn, off)
+			name := sanitize("emb$" + memName(et) + p)
+			if !g.m.decl[name] {
+				return 0, false
+			}
+			return g.m.val(Term{S: fmt.Sprintf("(%s %s %s)", name, lit64(rgn).S, lit64(off).S), Sort: SBV64}), true
+		}, "", depth+1)
 		return "&" + inner
+	case *types.Array:
+		if prefixForArrays == nil {
+			break
+		}
+		argn, ok := prefixForArrays(path)
+		if !ok {
+			// the function never touches this array: leave it zero
+			return ts + "{}"
+		}
+		et := u.Elem()
+		b, isBasic := et.Underlying().(*types.Basic)
+		if !isBasic || b.Info()&types.IsInteger == 0 {
+			break
+		}
+		n := u.Len()
+		if n > 4096 {
+			g.partial = append(g.partial, fmt.Sprintf("array %s: only the first 4096 of %d elements are materialised", path, n))
+			n = 4096
+		}
+		w := int(g.x.sizes.Sizeof(b)) * 8
+		var sb strings.Builder
+		fmt.Fprintf(&sb, "func() %s { var a %s; ", ts, ts)
+		for i := int64(0); i < n; i++ {
+			v := g.entryRead(memName(et), BV(w), argn, uint64(i)) & mask(w)
+			if v != 0 {
+				fmt.Fprintf(&sb, "a[%d] = %d; ", i, v)
+			}
+		}
+		sb.WriteString("return a }()")
+		return sb.String()
 	case *types.Struct:
 		var fs []string
 		for i := 0; i < u.NumFields(); i++ {
@@ -358,9 +407,14 @@ func (g *materializer) value(t types.Type, leafVal func(path string, srt Sort) u
 				continue
 			}
 			switch f.Type().Underlying().(type) {
-			case *types.Interface, *types.Signature, *types.Map, *types.Chan, *types.Array:
+			case *types.Interface, *types.Signature, *types.Map, *types.Chan:
 				g.partial = append(g.partial, "field "+path+"."+f.Name()+" of unsupported type left zero")
 				continue
+			case *types.Array:
+				if prefixForArrays == nil {
+					g.partial = append(g.partial, "array field "+path+"."+f.Name()+" left zero")
+					continue
+				}
 			}
 			fs = append(fs, f.Name()+": "+g.value(f.Type(), leafVal, prefixForArrays, path+"."+f.Name(), depth+1))
 		}
@@ -538,6 +592,68 @@ func rewriteOld(text string, params []string) string {
 	}
 }
 
+var boundParamRe = regexp.MustCompile(`func\(([^)]*)\) bool`)
+
+// hoistOld gives old(E) its meaning in the replay: E is evaluated before the
+// call and the value is kept (a pointer keeps pointing at the live object, so
+// reads through it outside old() see the final state). Only when E mentions a
+// quantified variable, which cannot be hoisted, the parameter names inside E
+// are redirected to deep copies taken before the call.
+func hoistOld(text string, params []string) (string, []string) {
+	boundNames := map[string]bool{}
+	for _, m := range boundParamRe.FindAllStringSubmatch(text, -1) {
+		for _, part := range strings.Split(m[1], ",") {
+			f := strings.Fields(part)
+			if len(f) > 0 {
+				boundNames[f[0]] = true
+			}
+		}
+	}
+	var pre []string
+	k := 0
+	for {
+		loc := oldCallRe.FindStringIndex(text)
+		if loc == nil {
+			return text, pre
+		}
+		depth := 0
+		end := -1
+		for i := loc[1] - 1; i < len(text); i++ {
+			if text[i] == '(' {
+				depth++
+			} else if text[i] == ')' {
+				depth--
+				if depth == 0 {
+					end = i
+					break
+				}
+			}
+		}
+		if end < 0 {
+			return text, pre
+		}
+		inner := text[loc[1]:end]
+		usesBound := false
+		for _, id := range reIdent.FindAllString(inner, -1) {
+			if boundNames[id] {
+				usesBound = true
+			}
+		}
+		if usesBound {
+			m := map[string]string{}
+			for _, p := range params {
+				m[p] = p + "__old"
+			}
+			text = text[:loc[0]] + "(" + substIdents(inner, m) + ")" + text[end+1:]
+			continue
+		}
+		k++
+		name := fmt.Sprintf("pvcOld%d", k)
+		pre = append(pre, fmt.Sprintf("\t%s := %s\n\t_ = %s\n", name, inner, name))
+		text = text[:loc[0]] + name + text[end+1:]
+	}
+}
+
 func tryReplay(w *World, v violation) *replayRun {
 	o := v.obl
 	c := v.fn.Contract
@@ -571,10 +687,36 @@ func tryReplay(w *World, v violation) *replayRun {
 	run := o.Run
 	x := run.x
 	m := newOracle(o)
-	m.shrink()
+	sig := run.sig
+	// size-like quantities to minimise: slice lengths and the int fields of pointed-to structs
+	var sizeTerms []Term
+	collect := func(t types.Type, v Value) {
+		pt, ok := t.Underlying().(*types.Pointer)
+		pv, ok2 := v.(*PtrV)
+		if !ok || !ok2 {
+			return
+		}
+		st, ok := pt.Elem().Underlying().(*types.Struct)
+		if !ok {
+			return
+		}
+		for i := 0; i < st.NumFields(); i++ {
+			f := st.Field(i)
+			if b, ok := f.Type().Underlying().(*types.Basic); ok && (b.Kind() == types.Int || b.Kind() == types.Int64) {
+				memT := Term{S: lazyMemName(memName(pt.Elem())+"."+f.Name(), 0), Sort: outerSort(SBV64)}
+				sizeTerms = append(sizeTerms, Select(Select(memT, pv.Rgn), pv.Off))
+			}
+		}
+	}
+	if sig.Recv() != nil && run.recv != nil {
+		collect(sig.Recv().Type(), run.recv)
+	}
+	for i := 0; i < sig.Params().Len() && i < len(run.args); i++ {
+		collect(sig.Params().At(i).Type(), run.args[i])
+	}
+	m.shrink(sizeTerms)
 	pkg := c.Pkg.Types
 	g := &materializer{x: x, m: m, entry: run.entry, pkg: pkg, imports: map[string]string{}}
-	sig := run.sig
 	type pv struct {
 		name string
 		t    types.Type
@@ -675,12 +817,7 @@ func tryReplay(w *World, v violation) *replayRun {
 		}
 	}
 	b.WriteString(decls.String())
-	if len(lhs) > 0 {
-		fmt.Fprintf(&b, "\t%s = %s\n", strings.Join(lhs, ", "), call)
-	} else {
-		fmt.Fprintf(&b, "\t%s\n", call)
-	}
-	b.WriteString("\tfmt.Println(\"PVC-REPLAY returned\")\n")
+	clause := ""
 	if o.Kind == "ensures" && o.CExpr != nil {
 		rw, err := RewriteExpr(o.CExpr.Dir.Expr)
 		if err != nil {
@@ -696,12 +833,42 @@ func tryReplay(w *World, v violation) *replayRun {
 		}
 		rw = substIdents(rw, subst)
 		rw = substIdents(rw, map[string]string{"old": "pvc_old"})
-		rw = rewriteOld(rw, names)
-		fmt.Fprintf(&b, "\tfmt.Println(\"PVC-REPLAY clause:\", %s)\n", rw)
+		var hoisted []string
+		rw, hoisted = hoistOld(rw, names)
+		for _, h := range hoisted {
+			b.WriteString(h)
+		}
+		clause = rw
+	}
+	if len(lhs) > 0 {
+		fmt.Fprintf(&b, "\t%s = %s\n", strings.Join(lhs, ", "), call)
+	} else {
+		fmt.Fprintf(&b, "\t%s\n", call)
+	}
+	b.WriteString("\tfmt.Println(\"PVC-REPLAY returned\")\n")
+	if clause != "" {
+		fmt.Fprintf(&b, "\tfmt.Println(\"PVC-REPLAY clause:\", %s)\n", clause)
 	}
 	var dom []string
 	for d := int64(-2); d <= g.maxLen+2 && d < 300; d++ {
 		dom = append(dom, strconv.FormatInt(d, 10))
+	}
+	// packages the clause text refers to by the names the source file imports them under
+	for _, f := range c.Pkg.Syntax {
+		if f.Pos() <= c.Body.Pos() && c.Body.Pos() <= f.End() {
+			for _, im := range f.Imports {
+				p := strings.Trim(im.Path.Value, `"`)
+				name := p[strings.LastIndex(p, "/")+1:]
+				if im.Name != nil {
+					name = im.Name.Name
+				} else if ip := c.Pkg.Imports[p]; ip != nil {
+					name = ip.Name
+				}
+				if name != "_" && name != "." && strings.Contains(b.String(), name+".") {
+					g.imports[p] = name
+				}
+			}
+		}
 	}
 	var imps strings.Builder
 	imps.WriteString("\t\"fmt\"\n\t\"testing\"\n")
